@@ -505,9 +505,13 @@ def relname(path, var, g):
 
 # ------------------------------------------------------------------------------------ solver scaling (C08)
 
-def with_scaling(spec, rng, pow2=True):
+def with_scaling(spec, rng, pow2=True, route='add', only=None):
     """copy of spec with random positive and negative ref / ref0 / res_ref on outputs (scalar and array).
-    pow2: ref - ref0 and res_ref are +-2^k (binary64 arithmetic of the scaling stays exact)"""
+    pow2: ref - ref0 and res_ref are +-2^k (binary64 arithmetic of the scaling stays exact).
+    route: 'add' -> add_output arguments; 'sso' -> System.set_output_solver_options (called on the component or on
+    an ancestor group with the relative path); 'mixed' -> each key by either route.
+    only: None, or 'ref0' -> the whole model has a single scaled output, scaled by a non-zero ref0 alone (array or
+    scalar), or 'one' -> a single output carries all the scaling of the model."""
     import copy
     s2 = copy.deepcopy(spec)
 
@@ -515,36 +519,76 @@ def with_scaling(spec, rng, pow2=True):
         if pow2:
             return _pow2(rng)
         return rng.choice([F(3), F(-3), F(5), F(-7), F(10), F(1, 2), F(-2), F(6), F(-1), F(100)])
-    for c in s2['comps']:
-        for o in c['outs']:
+    allouts = [(ci, k) for ci, c in enumerate(s2['comps']) for k in range(len(c['outs']))]
+    # prefer outputs that something reads (their scaling reaches the connected inputs)
+    read = [tuple(i['src']) for c in s2['comps'] for i in c['ins'] if i['src'] is not None]
+    chosen = None
+    if only is not None:
+        chosen = rng.choice(read) if read and rng.random() < 0.8 else rng.choice(allouts)
+    for ci, c in enumerate(s2['comps']):
+        L = len(c['path'].split('.'))
+        for k, o in enumerate(c['outs']):
             n = o['size']
-            if rng.random() < 0.7:
-                vec = n > 1 and rng.random() < 0.4
-                r0 = [F(rng.randrange(-2, 3)) if rng.random() < 0.6 else F(0) for _ in range(n if vec else 1)]
-                a1 = [span() for _ in range(n if vec else 1)]
-                # ref = 0 is not admissible: res_ref defaults to ref
-                r0 = [a if a + b != 0 else a + 1 for a, b in zip(r0, a1)]
-                ref = [a + b for a, b in zip(r0, a1)]
-                k = rng.random()
-                if k < 0.6:
-                    o['ref0'], o['ref'] = (js(r0), js(ref)) if vec else (js(r0[0]), js(ref[0]))
-                elif k < 0.8:
-                    o['ref'] = js(a1) if vec else js(a1[0])         # ref only (ref0 = 0)
+            kw = {}
+            if only == 'ref0':
+                if (ci, k) != chosen:
+                    continue
+                vec = n > 1 and rng.random() < 0.6
+                cands = [F(-2), F(-1), F(3), F(1, 2)] if not pow2 else [F(-1), F(-3), F(3), F(1, 2), F(-7)]
+                r0 = [rng.choice(cands) for _ in range(n if vec else 1)]
+                if vec and rng.random() < 0.5:
+                    r0[rng.randrange(n)] = F(0)
+                    if not any(r0):
+                        r0[0] = F(-1)
+                kw['ref0'] = js(r0) if vec else js(r0[0])
+            else:
+                if only == 'one' and (ci, k) != chosen:
+                    continue
+                if rng.random() < 0.7 or only == 'one':
+                    vec = n > 1 and rng.random() < 0.4
+                    r0 = [F(rng.randrange(-2, 3)) if rng.random() < 0.6 else F(0) for _ in range(n if vec else 1)]
+                    a1 = [span() for _ in range(n if vec else 1)]
+                    # ref = 0 is not admissible: res_ref defaults to ref
+                    r0 = [a if a + b != 0 else a + 1 for a, b in zip(r0, a1)]
+                    ref = [a + b for a, b in zip(r0, a1)]
+                    r = rng.random()
+                    if r < 0.6:
+                        kw['ref0'], kw['ref'] = (js(r0), js(ref)) if vec else (js(r0[0]), js(ref[0]))
+                    elif r < 0.8:
+                        kw['ref'] = js(a1) if vec else js(a1[0])         # ref only (ref0 = 0)
+                    else:
+                        # ref0 only (ref = 1): keep ref - ref0 admissible
+                        if not any(1 - v == 0 for v in r0) and \
+                                (not pow2 or all(is_dyadic(1 / (1 - v)) for v in r0)):
+                            kw['ref0'] = js(r0) if vec else js(r0[0])
+                if rng.random() < 0.6:
+                    vec = n > 1 and rng.random() < 0.4
+                    rr = [span() for _ in range(n if vec else 1)]
+                    kw['res_ref'] = js(rr) if vec else js(rr[0])
+            sso = {}
+            for key, val in kw.items():
+                via_sso = route == 'sso' or (route == 'mixed' and rng.random() < 0.5)
+                if via_sso:
+                    sso[key] = val
                 else:
-                    o['ref0'] = js(r0) if vec else js(r0[0])        # ref0 only (ref = 1): keep ref - ref0 admissible
-                    if any(1 - v == 0 for v in r0):
-                        o['ref0'] = None
-                    elif pow2 and not all(is_dyadic(1 / (1 - v)) for v in r0):
-                        o['ref0'] = None
-            if rng.random() < 0.6:
-                vec = n > 1 and rng.random() < 0.4
-                rr = [span() for _ in range(n if vec else 1)]
-                o['res_ref'] = js(rr) if vec else js(rr[0])
+                    o[key] = val
+            if sso:
+                # level: number of path parts of the system the call is made on (L = the component itself,
+                # 0 = the model, with the full relative path)
+                sso['level'] = rng.choice([L, L, 0] + list(range(0, L)))
+                o['sso'] = sso
     return s2
 
 
+def effective_scaling(o):
+    """(ref0, ref, res_ref, declared ref) after set_output_solver_options overrides the add_output arguments"""
+    sso = o.get('sso') or {}
+    eff = {k: (sso[k] if k in sso else o.get(k)) for k in ('ref0', 'ref', 'res_ref')}
+    return eff['ref0'], eff['ref'], eff['res_ref'], o.get('ref')
+
+
 def out_scalings(spec, flat):
-    """per flat variable: (ref0, ref, res_ref or None) entrywise"""
+    """per flat variable: (ref0, ref, res_ref or None, explicit?, ref as declared in add_output) entrywise"""
     res = []
     for v in flat['vars']:
         n = v['size']
@@ -555,17 +599,17 @@ def out_scalings(spec, flat):
             x = fr(x)
             return list(x) if isinstance(x, list) else [x] * n
         if v['auto']:
-            res.append(([F(0)] * n, [F(1)] * n, None, True))
+            res.append(([F(0)] * n, [F(1)] * n, None, True, [F(1)] * n))
         else:
             res.append((bc(v.get('ref0'), 0), bc(v.get('ref'), 1), bc(v.get('res_ref'), None),
-                        spec['comps'][v['comp']]['kind'] != 'imp'))
+                        spec['comps'][v['comp']]['kind'] != 'imp', bc(v.get('ref_decl'), 1)))
     return res
 
 
 def gallina_oscals(spec, flat):
-    return '[%s]' % '; '.join('(mkoscal %s %s %s %s)' % (qvec(a), qvec(b), 'None' if c is None else '(Some %s)' % qvec(c),
-                                                       'true' if e else 'false')
-                              for a, b, c, e in out_scalings(spec, flat))
+    return '[%s]' % '; '.join('(mkoscal %s %s %s %s %s)' % (qvec(a), qvec(b), 'None' if c is None else '(Some %s)' % qvec(c),
+                                                          'true' if e else 'false', qvec(d))
+                              for a, b, c, e, d in out_scalings(spec, flat))
 
 
 # ------------------------------------------------------------------------------------ flat algebra
@@ -593,7 +637,8 @@ def flatten(spec):
             out_id[(ci, k)] = len(vars_)
             vars_.append({'size': o['size'], 'auto': False, 'comp': ci, 'out': k, 'units': o['units'],
                           'val': fr(o['val']) if c['kind'] == 'ivc' else None,
-                          'ref': o.get('ref'), 'ref0': o.get('ref0'), 'res_ref': o.get('res_ref')})
+                          'ref': effective_scaling(o)[1], 'ref0': effective_scaling(o)[0],
+                          'res_ref': effective_scaling(o)[2], 'ref_decl': effective_scaling(o)[3]})
     off = []
     n = 0
     for v in vars_:
